@@ -81,7 +81,7 @@ Print Assumptions C06_X_conserves_total_partial.
 (* (6) guards of the array model: accepted => conserving / square / zero column sums; otherwise the error token *)
 Theorem C06_X_rejects_nonconserving (S : ScalOps) (L : ScalLaws S) (o : xop S) (s : smN S) (sh : list nat) (d : list S) :
   x_apply S o s = XOk S sh d ->
-  forall b, In b (all_idx (set_at (x_ax S o) 1 (s_shape S s))) ->
+  forall b, In b (all_idx (cons_shape S o s)) ->
   forall i, (i < nth (x_ax S o) (x_shape S o) 0)%nat ->
   ksum (nth (x_ax S o) (x_shape S o) 0%nat) (fun j =>
      kmul (get S (fst (x_khi S o)) (snd (x_khi S o))
